@@ -52,4 +52,40 @@ theorem Site.V_index (h : Header) (idx : Nat) (h1 : Site.lbV h ≤ idx) (h2 : id
   simp only [Header.num_vars_and_exprs] at b h2
   omega
 
+/-! item counts of the handler instantiated per segment letter / suffix kind -/
+
+theorem siteVal_nat (x : Nat) : siteVal (.ret (x : Int)) = x := by simp [siteVal]
+
+theorem Site.itemsSeg_G (h : Header) : Site.itemsSeg h 71 = h.num_objs := by
+  unfold Site.itemsSeg; exact siteVal_nat _
+theorem Site.itemsSeg_J (h : Header) : Site.itemsSeg h 74 = h.num_algebraic_cons := by
+  unfold Site.itemsSeg; exact siteVal_nat _
+theorem Site.itemsSeg_b (h : Header) : Site.itemsSeg h 98 = h.num_vars := by
+  unfold Site.itemsSeg; exact siteVal_nat _
+theorem Site.itemsSeg_r (h : Header) : Site.itemsSeg h 114 = h.num_algebraic_cons := by
+  unfold Site.itemsSeg; exact siteVal_nat _
+theorem Site.itemsSeg_x (h : Header) : Site.itemsSeg h 120 = h.num_vars := by
+  unfold Site.itemsSeg; exact siteVal_nat _
+theorem Site.itemsSeg_d (h : Header) : Site.itemsSeg h 100 = h.num_algebraic_cons := by
+  unfold Site.itemsSeg; exact siteVal_nat _
+
+/-- the suffix item count the reader uses is at most the declared one (equal unless `ConHandler::num_items()` would
+    overflow `int`, which `ReadHeader` excludes) -/
+theorem Site.itemsSuffix_le (h : Header) (kind : Nat) (hk : kind ≤ 3) : Site.itemsSuffix h kind ≤ h.suffixItems kind := by
+  unfold Site.itemsSuffix
+  have : kind = 0 ∨ kind = 1 ∨ kind = 2 ∨ kind = 3 := by omega
+  rcases this with rfl | rfl | rfl | rfl
+  · exact Nat.le_of_eq (siteVal_nat _)
+  · show siteVal (items_ConHandler (hdrOf h)) ≤ _
+    simp only [items_ConHandler, hdrOf, cadd, arith, Header.suffixItems]
+    by_cases hr : tI.lo ≤ (h.num_algebraic_cons : Int) + h.num_logical_cons ∧ (h.num_algebraic_cons : Int) + h.num_logical_cons ≤ tI.hi
+    · have e : tI.signed = true := rfl
+      simp only [e, ↓reduceIte, hr, and_self, siteVal]
+      omega
+    · have e : tI.signed = true := rfl
+      simp only [e, ↓reduceIte, hr, siteVal]
+      omega
+  · exact Nat.le_of_eq (siteVal_nat _)
+  · exact Nat.le_of_eq (siteVal_nat _)
+
 end MpVerif.C02
